@@ -109,7 +109,29 @@ ALL checks on a snapshot after every batch of harness changes; (16) new
 workloads keep finding defects in the unchanged code, not only seeded ones:
 the revision-zero parked-receive-loop phases (D20, D21) and the look at the
 registry from inside the close callback (D22) were both written to catch a
-submitted change and fired before it was applied.
+submitted change and fired before it was applied, and so did the half-close
+that overtakes a delayed cancel frame in the middle of a message (D23); (17)
+rounds i and j were dominated by axes the workloads held constant rather than
+by missing oracles: how revision zero comes about (which side disabled flow
+control, or a peer that does not negotiate), which callbacks the application
+configured, a `grpc-timeout` header on RPCs that are cancelled or whose
+identity is checked, a context that is already over at call time (the virtual
+clock has to be advanced before the call), credit returned in portions larger
+than the library's own receiver ever uses, a Serve call on its way in while
+Stop runs, a tunnel opened while the handler drains, a handler that goes on
+using a stream somebody else finished, metadata maps the application keeps and
+reuses, requests that cannot be encoded - each is now a PRNG-chosen axis of an
+existing family or a small family of its own; (18) the carrier model decides
+what is observable: a buffer recycled after Send is invisible on a carrier
+that serialises inside Send (as real gRPC does), so a by-reference delivery
+mode was added, and the same model was once too lax (a half-close after the
+caller's context ended) and once too strict (a blocked write never released
+although the peer had ended the stream - a false lock-cycle alarm in the
+thorough C15 tier), both corrected against grpc-go's behaviour; (19) a repair
+can mask a seeded change's symptom without removing it (after D23 a
+continuation overrun that is followed by a half-close is failed with the right
+code for the wrong reason): deviations are now also run *without* the frames
+that would come to the endpoint's rescue.
 '''
 open(p, "w").write(s)
 print(summary, "total missed", missed, "of", len(ids))
